@@ -11,6 +11,7 @@ require (
 )
 
 require (
+	github.com/anishathalye/porcupine v1.3.0
 	github.com/vishvananda/netns v0.0.0-20191106174202-0a2b9b5464df // indirect
 	go.uber.org/atomic v1.7.0 // indirect
 	go.uber.org/multierr v1.6.0 // indirect
